@@ -23,7 +23,7 @@ CLAIMS = {
  "C09": ("ledger", "model_checking", LEDGER_LEVEL + "; hashes and all signatures of every held vertex are recomputed by the driver independently of the repository's verifier", LEDGER_NOTE),
  "C10": ("ledger", "model_checking", LEDGER_LEVEL, LEDGER_NOTE),
  "C13": ("ledger", "model_checking", LEDGER_LEVEL + "; permutations of delivery of a valid history with retry ticks and duplicates, final ledgers compared by TLC", LEDGER_NOTE),
- "C14": ("ledger", "model_checking", LEDGER_LEVEL + "; streams of real ledgers loaded into fresh real nodes, single corruptions of the stream, follow-up traffic to both nodes", LEDGER_NOTE),
+ "C14": ("ledger", "model_checking", LEDGER_LEVEL + "; streams of real ledgers loaded into fresh real nodes - through the book's channel and through the real transport (the source's gossip server on a loopback gRPC port, the proto mapping both ways, the loading node's updateDag) - single corruptions of the stream, follow-up traffic to both nodes", LEDGER_NOTE),
  "C17": ("cache", "model_checking", "TLC explores every interleaving of the individual bigcache calls of concurrent save / remove / read operations (AwaitCache.tla, mutex-guarded as in the repaired code) and checks the quiescence invariant (listed for issuer and receiver, nothing else, nothing twice) and that only the receiver removes; on the real Hippocampus sequential call sequences are judged call by call against the specification, every two-call interleaving is forced at the gate between list read and list write, and free-running goroutines on shared addresses end in states TLC judges with the same invariant",
          "trusted: VerifPeek (read-only hook), bigcache single calls atomic, TLC; expiry/eviction are excluded by running with an unbounded cache inside the life window"),
  "C20": ("file", "fault_enumeration", "WalletFile.tla states what Decrypt + GOB decoding return for every file length, every changed byte position and every key class (AEAD axiom; the unchecked slice is a named deviation switch); TLC enumerates it at scaled region lengths, and the driver executes ALL concrete members on the real code - every truncation length 0..len, every single-byte position with several values, wrong keys, single key-bit flips, keys of invalid length, PEM round trip - with TLC judging each recorded outcome against the specification",
@@ -50,7 +50,7 @@ m = {"version": 1, "setup_cmd": "./check setup",
                "baseline_off_cmd": "cd /repo/src && GOFLAGS=-mod=mod go test -json -vet=off -count=1 -timeout 25m ./...",
                "source_commits": hook_commits, "add_only": True},
      "engines": [
-        {"name": "ledger", "path": "specs/Ledger.tla specs/LedgerMC.tla specs/LedgerTrace.tla harness/cmd/drive/ledger.go runner/ledger.py",
+        {"name": "ledger", "path": "specs/Ledger.tla specs/LedgerMC.tla specs/LedgerTrace.tla harness/cmd/drive/ledger.go harness/cmd/drive/netload.go runner/ledger.py",
          "serves_properties": ["C01", "C02", "C03", "C06", "C07", "C09", "C10", "C13", "C14"],
          "kind_free_text": "explicit TLA+ specification of the accounting books; TLC bounded model checking; TLC-generated behaviours replayed on real AccountingBooks; TLC trace validation"},
         {"name": "spice", "path": "specs/Spice.tla specs/SpiceMC.tla specs/SpiceTrace.tla harness/cmd/drive/spicedrv.go runner/spice.py",
